@@ -122,3 +122,47 @@ pub fn widen_attrs(a: &mut crate::adoc::ANode, rng: &mut crate::rng::Rng, n: usi
     }
     true
 }
+
+/// A normalizer that really changes text and attribute values, like NFD / NFKC would: U+226E becomes '<' + U+0338,
+/// the full-width '<' and '&' become the ASCII ones, the ligature U+FB01 becomes "fi". ASCII is left alone.
+#[derive(Clone, Copy)]
+pub struct TestNormalizer;
+
+pub fn test_normalize(s: &str) -> String {
+    let mut out = String::with_capacity(s.len());
+    for c in s.chars() {
+        match c {
+            '\u{226e}' => out.push_str("<\u{338}"),
+            '\u{ff1c}' => out.push('<'),
+            '\u{ff06}' => out.push('&'),
+            '\u{fb01}' => out.push_str("fi"),
+            c => out.push(c),
+        }
+    }
+    out
+}
+
+impl xot::output::Normalizer for TestNormalizer {
+    fn normalize<'a>(&self, content: std::borrow::Cow<'a, str>) -> std::borrow::Cow<'a, str> {
+        if content.chars().any(|c| matches!(c, '\u{226e}' | '\u{ff1c}' | '\u{ff06}' | '\u{fb01}')) {
+            std::borrow::Cow::Owned(test_normalize(&content))
+        } else {
+            content
+        }
+    }
+}
+
+/// the abstract tree as it looks after normalisation of text and attribute values
+pub fn normalize_tree(a: &crate::adoc::ANode) -> crate::adoc::ANode {
+    use crate::adoc::*;
+    let mut b = a.clone();
+    b.walk_mut(&mut |n| {
+        if n.kind == AKind::Text {
+            n.text = test_normalize(&n.text);
+        }
+        for (_, v) in n.attrs.iter_mut() {
+            *v = test_normalize(v);
+        }
+    });
+    b
+}
